@@ -262,9 +262,16 @@ func (f *FeeQuote) UnmarshalJSON(body []byte) error {
 	if err := json.Unmarshal(body, &fees); err != nil {
 		return err
 	}
+	if fees == nil {
+		// JSON null: by convention a no-op, the quote keeps its fees.
+		return nil
+	}
 	for k, v := range fees {
 		if k != FeeTypeData && k != FeeTypeStandard {
 			return fmt.Errorf("%w '%s'", ErrUnknownFeeType, k)
+		}
+		if v == nil {
+			return fmt.Errorf("%w: fee type '%s' is null", ErrFeeTypeNotFound, k)
 		}
 		v.FeeType = k
 	}
